@@ -31,6 +31,7 @@ pub mod scalar;
 pub mod mixed;
 pub mod domprobes;
 pub mod lencheck;
+pub mod history;
 pub mod c03;
 pub mod c04;
 pub mod c05;
